@@ -154,6 +154,8 @@ pub struct Obs {
     pub evals: u64,
     /// optional compact rendering of the case for the evidence samples
     pub sample: Option<Value>,
+    /// further failures of the same case (each is triaged on its own)
+    pub extra_failures: Vec<Failure>,
 }
 
 impl Obs {
@@ -197,6 +199,7 @@ struct Stats {
     samples: Vec<Value>,
     known_hits: BTreeMap<String, u64>,
     sub: BTreeMap<String, Value>,
+    survey: BTreeMap<String, (u64, String)>,
 }
 
 pub struct Check {
@@ -292,6 +295,16 @@ impl Check {
     /// Handle one failure: known finding => counted and tolerated (Ok),
     /// otherwise Err.
     fn triage(&self, f: Failure) -> Result<(), Failure> {
+        if self.replay.is_none() && !self.known.matches(&f.sig) && std::env::var("VERIF_SURVEY").is_ok() {
+            // development aid: collect every distinct signature instead of stopping
+            let mut st = self.stats.lock().unwrap();
+            let e = st.survey.entry(f.sig.clone()).or_insert((0, f.msg.clone()));
+            e.0 += 1;
+            if f.msg.len() < e.1.len() {
+                e.1 = f.msg.clone();
+            }
+            return Ok(());
+        }
         if self.replay.is_none() && self.known.matches(&f.sig) {
             let mut st = self.stats.lock().unwrap();
             *st.known_hits.entry(f.sig.clone()).or_insert(0) += 1;
@@ -317,9 +330,26 @@ impl Check {
             Ok(r) => r,
             Err(p) => Err(panic_failure(p)),
         };
+        let mut all = std::mem::take(&mut obs.extra_failures);
+        if obs.sample.is_none() {
+            // explicit cases are samples of themselves (absorb keeps at most 4 per sub)
+            let mut txt = serde_json::to_string(case).unwrap_or_default();
+            if txt.len() > 600 {
+                txt.truncate(600);
+                txt.push_str("...");
+                obs.sample = Some(Value::String(txt));
+            } else {
+                obs.sample = serde_json::from_str(&txt).ok();
+            }
+        }
         self.absorb(sub, obs);
-        if let Err(fl) = r.and_then(|_| Ok(())).or_else(|fl| self.triage(fl)) {
-            self.record_violation(sub, serde_json::to_value(case).unwrap_or(Value::Null), fl);
+        if let Err(fl) = r {
+            all.push(fl);
+        }
+        for fl in all {
+            if let Err(fl) = self.triage(fl) {
+                self.record_violation(sub, serde_json::to_value(case).unwrap_or(Value::Null), fl);
+            }
         }
     }
 
@@ -379,13 +409,17 @@ impl Check {
                 Ok(r) => r,
                 Err(p) => Err(panic_failure(p)),
             };
+            let mut all = std::mem::take(&mut obs.extra_failures);
             self.absorb(sub, obs);
-            match r {
-                Ok(()) => println!("REPLAY sub={sub}: case passes"),
-                Err(fl) => {
-                    let case = case.clone();
-                    self.record_violation(sub, case, fl);
-                }
+            if let Err(fl) = r {
+                all.push(fl);
+            }
+            if all.is_empty() {
+                println!("REPLAY sub={sub}: case passes");
+            }
+            let case = case.clone();
+            for fl in all {
+                self.record_violation(sub, case.clone(), fl);
             }
             return;
         }
@@ -449,37 +483,44 @@ impl Check {
                                         obs.sample = serde_json::from_str(&txt).ok();
                                     }
                                 }
+                                let extra = std::mem::take(&mut obs.extra_failures);
                                 this.absorb(sub, obs);
-                            }
-                            match r {
-                                Ok(()) => Ok(()),
-                                Err(fl) => {
-                                    if failed.get() {
-                                        // while shrinking: only keep shrinking towards the
-                                        // same root cause, and never count known findings
-                                        if this.known.matches(&fl.sig) {
-                                            return Ok(());
+                                // every failure of the case is triaged on its own, so that a
+                                // listed known finding never masks a different violation
+                                let mut all = extra;
+                                if let Err(fl) = r {
+                                    all.push(fl);
+                                }
+                                let mut first_unknown = None;
+                                for fl in all {
+                                    if let Err(fl) = this.triage(fl) {
+                                        if first_unknown.is_none() {
+                                            first_unknown = Some(fl);
                                         }
-                                        let same = last_fail
-                                            .borrow()
-                                            .as_ref()
-                                            .map(|l| l.sig == fl.sig)
-                                            .unwrap_or(true);
-                                        if !same {
-                                            return Ok(());
-                                        }
+                                    }
+                                }
+                                return match first_unknown {
+                                    None => Ok(()),
+                                    Some(fl) => {
+                                        failed.set(true);
+                                        stop.store(true, Ordering::Relaxed);
                                         *last_fail.borrow_mut() = Some(fl.clone());
-                                        return Err(TestCaseError::fail(fl.msg));
+                                        Err(TestCaseError::fail(fl.msg))
                                     }
-                                    match this.triage(fl) {
-                                        Ok(()) => Ok(()),
-                                        Err(fl) => {
-                                            failed.set(true);
-                                            stop.store(true, Ordering::Relaxed);
-                                            *last_fail.borrow_mut() = Some(fl.clone());
-                                            Err(TestCaseError::fail(fl.msg))
-                                        }
-                                    }
+                                };
+                            }
+                            // while shrinking: only keep shrinking towards the same root
+                            // cause, and never count known findings
+                            let mut all = std::mem::take(&mut obs.extra_failures);
+                            if let Err(fl) = r {
+                                all.push(fl);
+                            }
+                            let want = last_fail.borrow().as_ref().map(|l| l.sig.clone());
+                            match all.into_iter().find(|fl| !this.known.matches(&fl.sig) && want.as_ref().map(|w| *w == fl.sig).unwrap_or(true)) {
+                                None => Ok(()),
+                                Some(fl) => {
+                                    *last_fail.borrow_mut() = Some(fl.clone());
+                                    Err(TestCaseError::fail(fl.msg))
                                 }
                             }
                         });
@@ -568,6 +609,9 @@ impl Check {
     pub fn finish(self) -> ! {
         let wall = self.start.elapsed().as_secs_f64();
         let st = self.stats.into_inner().unwrap();
+        for (sig, (n, msg)) in &st.survey {
+            println!("SURVEY {n:6} x {sig}\n{}\n", msg.chars().take(2500).collect::<String>());
+        }
         for k in self.known.entries() {
             let hits = st.known_hits.get(&k.sig).copied().unwrap_or(0);
             println!(
